@@ -270,8 +270,21 @@ class World:
         # level ("sub"): 0 main graph, 1 then-branch of an If, 2 If nested inside that then-branch, 3 else-branch
         levels: dict[int, list] = {0: [], 1: [], 2: [], 3: []}
         flags: dict[int, dict] = {}
+        by_name: dict[str, object] = {}
+        self.owned = []  # tensor objects owned (not aliases), in heap order of the model
         for it in spec.get("inits", []):
+            if it["kind"] == "A":
+                t = by_name[it["of"]]
+                by_name[it["name"]] = t
+                src = next(x for x in spec["inits"] if x["name"] == it["of"])
+                it = dict(it, shape=src["shape"])
+                v = ir.Value(name=it["name"], const_value=t, shape=ir.Shape(list(src["shape"])), type=ir.TensorType(t.dtype))
+                levels[int(it.get("sub", 0))].append(v)
+                flags[id(v)] = it
+                self.objs.append(None)
+                continue
             t = self._tensor(ir, it)
+            by_name[it["name"]] = t
             if t is None:
                 meta = it.get("meta", "full")
                 v = ir.Value(
@@ -284,6 +297,7 @@ class World:
             levels[int(it.get("sub", 0))].append(v)
             flags[id(v)] = it
             self.objs.append(t)
+        self.by_name = by_name
         order = sorted(spec.get("inits", []), key=lambda it: int(it.get("sub", 0)))
         if order != list(spec.get("inits", [])):
             raise ValueError("spec.inits must be ordered by graph level (main, then, nested, else)")
@@ -350,7 +364,7 @@ class World:
                 if it.get("lazy"):
                     return ir.LazyTensor(lambda arr=arr, nm=it["name"]: ir.Tensor(arr, name=nm), dtype=dt,
                                          shape=ir.Shape(shape), name=it["name"])
-                return ir.Tensor(arr, name=it["name"])
+                return ir.Tensor(arr, name=("tn_" + it["name"]) if it.get("tname_differs") else it["name"])
             import onnx
 
             tp = onnx.TensorProto()
@@ -560,7 +574,8 @@ def run_real(spec: dict, k: int | None) -> dict:
             "files": w.obs_files(),
             "bytes": {},
         }
-        for it, t in zip(spec.get("inits", []), w.objs):
+        for it in spec.get("inits", []):
+            t = w.by_name.get(it["name"])
             if t is not None:
                 before["bytes"][it["name"]] = (int(bool(it.get("sub"))), payload(w.obs_obj(t)))
         struct_expected = w.struct_expected()
@@ -630,6 +645,9 @@ def model_line(spec: dict, k: int | None, deep: int) -> str:
         head = f"{it['name']}:{int(bool(it.get('sub')))}"
         if it["kind"] == "U":
             parts.append(head + ":U")
+        elif it["kind"] == "A":
+            j = [x["name"] for x in spec["inits"]].index(it["of"])
+            parts.append(head + f":A:{j}")
         elif it["kind"] == "M":
             parts.append(head + f":M:{it['seed']}:{it['len']}:{int(it['np'])}")
         else:
